@@ -1,4 +1,7 @@
 import M3d.Lemmas.Bounded
+import M3d.Lemmas.BoundedPoly
+import M3d.Lemmas.BoundedStacked
+import M3d.Lemmas.BoundedPolyHull
 import Mathlib.Analysis.Real.Sqrt
 /-!
 # C03 — Solids never contain points outside their reported bounding box
@@ -242,6 +245,33 @@ theorem wrapper_does_not_cut_transform (sq : K → K) (eps : K) (ts : List (Xf1 
   simp only [SolidExpr.contains, SolidExpr.eval] at hq ⊢
   exact xform_no_cut ts _ (bounded_sound sq eps e h) hf hi q hq
 
+/-- `StackedSolid` (deprecated type; `Contains` = `InBounds(s, c) &&` "some operand moved up by the running
+`currentZ` contains `c`") does not cut: for 3-D operands that are bounded and report `Min().Z ≤ Max().Z`,
+wherever the loop over the moved operands (`stackedAny`, the underlying definition) says inside, the
+solid answers `true` — the running `lastMax.Z` of `Max()` and the running `currentZ` of `Contains` agree,
+and `JoinedSolid(s).Min()` is below every moved operand. -/
+theorem wrapper_does_not_cut_stacked (sq : K → K) (eps : K) (a : SolidExpr K) (rest : List (SolidExpr K))
+    (hl : ∀ e ∈ a :: rest, Leaves Bounded e) (h3 : ∀ e ∈ a :: rest, (e.eval sq eps).d3 = true)
+    (ho : ∀ e ∈ a :: rest, (e.bounds sq eps).lo 2 ≤ (e.bounds sq eps).hi 2) (p : Pt K)
+    (hp : stackedAny p ((a.bounds sq eps).lo 2) (a.eval sq eps :: evalL sq eps rest) = true) :
+    (SolidExpr.stacked a rest).contains sq eps p = true := by
+  simp only [SolidExpr.contains, SolidExpr.eval]
+  refine stacked_no_cut _ _ ?_ p hp
+  intro s hs
+  rcases List.mem_cons.mp hs with rfl | hs
+  · exact ⟨h3 a (List.mem_cons_self ..), bounded_sound sq eps a (hl a (List.mem_cons_self ..)),
+      ho a (List.mem_cons_self ..)⟩
+  · rw [evalL_eq] at hs
+    obtain ⟨e, he, rfl⟩ := List.mem_map.mp hs
+    have hm : e ∈ a :: rest := List.mem_cons_of_mem _ he
+    exact ⟨h3 e hm, bounded_sound sq eps e (hl e hm), ho e hm⟩
+
+/-- non-vacuity of `wrapper_does_not_cut_stacked`: two unit cubes; the point `(1/2, 1/2, 3/2)` lies in the
+second cube moved up by one, and the stacked solid contains it. -/
+example : (SolidExpr.stacked (α := ℚ) (.prim (rectS true (mk3 0 0 0) (mk3 1 1 1)))
+      [.prim (rectS true (mk3 0 0 0) (mk3 1 1 1))]).contains (fun x => x) 0 (mk3 (1 / 2) (1 / 2) (3 / 2)) = true := by
+  decide +kernel
+
 /-- `ProfileSolid` does not cut. -/
 theorem wrapper_does_not_cut_profile (sq : K → K) (eps : K) (e : SolidExpr K) (a b : K) (h : Leaves Bounded e)
     (p : Pt K) (hp : e.contains sq eps (mk3 (p 0) (p 1) 0) = true) (hz : a ≤ p 2 ∧ p 2 ≤ b) :
@@ -295,6 +325,139 @@ theorem wrapper_does_not_cut_metaball (sq : K → K) (eps : K) (fall : K → K) 
     (SolidExpr.metaball fall rt outset first rest).contains sq eps p = true := by
   simp only [SolidExpr.contains, SolidExpr.eval]
   exact metaball_no_cut fall hfall rt outset first rest hm hd (mbOutset_ok _ _ _ _ _ ho) p hp
+
+/-! ## Polytope-derived solids: un-normalised constraints -/
+
+/-- **`polytope_scale_invariant`.**  `ConvexPolytope.Contains` does not depend on the lengths of the
+constraint normals: the system `{Normal: n·s, Max: m·s}` with one factor `s > 0` per constraint (plane
+equations in intercept form, normals of length 1e-6 or 1e90, …) accepts exactly the points of `{n, m}`.
+This is why kind `polycut` may demand of `ConvexPolytope.Solid()` of the *scaled* system the answers of
+the half-space test of the *unscaled* one. -/
+theorem polytope_scale_invariant (l : List (SCon K)) (hs : ∀ c ∈ l, 0 < c.s) (p : Pt K) :
+    polyContains (scaledCs l) p = polyContains (unscaledCs l) p := polyContains_scaled l hs p
+
+/-- **`wrapper_does_not_cut_polytope`.**  `ConvexPolytope.Solid()` answers `InBounds(box) && Contains`;
+with a box that encloses the intersection of the half-spaces (what `Mesh().Min()/Max()` has to deliver)
+the solid of the scaled system is exactly the half-space test of the unscaled one: nothing is cut, for
+any positive factors.  The enclosure hypothesis is what kind `polycut` and the site
+`c03:wrapper-cuts:polytope` test on the implementation (it is proved below for the *model* of `Mesh()`
+only in the form of scale invariance, `mesh_vertices_scale_invariant`). -/
+theorem wrapper_does_not_cut_polytope (sq : K → K) (eps : K) (d3 : Bool) (box : Box K) (l : List (SCon K))
+    (hs : ∀ c ∈ l, 0 < c.s) (henc : ∀ q, polyContains (unscaledCs l) q = true → InBox d3 box q) (p : Pt K) :
+    (SolidExpr.polytope d3 box (scaledCs l)).contains sq eps p = polyContains (unscaledCs l) p := by
+  simp only [SolidExpr.contains, SolidExpr.eval]
+  rw [polytope_no_cut d3 box (scaledCs l) (fun q hq => henc q (by rwa [polyContains_scaled l hs q] at hq)) p]
+  exact polyContains_scaled l hs p
+
+/-- **`mesh_vertices_scale_invariant`.**  The vertices that `ConvexPolytope.Mesh()` enumerates — for every
+sorted index triple (pair in 2-D) the solution of the linear system, kept when `|det| ≥ rawArea·1e-8`
+(`rawArea` = product of the normals' lengths, so the test is *relative*) and no other constraint is
+violated by more than `spatialEpsilon·|normal|` — are the same for every positive rescaling of the
+constraints, for every square-root function; hence so is the box `Solid()` reports (`vertsBox`).  An
+absolute threshold on the determinant (seeded change C03-6) falsifies exactly this. -/
+theorem mesh_vertices_scale_invariant (sq : K → K) (hsq : SqrtOK sq) (tol : K) (l : List (SCon K))
+    (hs : ∀ c ∈ l, 0 < c.s) :
+    meshVerts3 sq tol (scaledCs l) = meshVerts3 sq tol (unscaledCs l) ∧
+    meshVerts2 sq tol (scaledCs l) = meshVerts2 sq tol (unscaledCs l) ∧
+    vertsBox (meshVerts3 sq tol (scaledCs l)) = vertsBox (meshVerts3 sq tol (unscaledCs l)) ∧
+    vertsBox (meshVerts2 sq tol (scaledCs l)) = vertsBox (meshVerts2 sq tol (unscaledCs l)) := by
+  have h3 := meshVerts3_scaled sq hsq tol l hs
+  have h2 := meshVerts2_scaled sq hsq tol l hs
+  exact ⟨h3, h2, by rw [h3], by rw [h2]⟩
+
+/-- **`polytope_box_encloses`.**  The box `ConvexPolytope.Solid()` takes from `Mesh()` — modelled as the box
+spanned by the vertices that `Mesh()` enumerates (`vertsBox ∘ meshVerts3/2`) — contains every point of the
+intersection of the half-spaces, provided that intersection is bounded (`R` bounds every coordinate) and
+none of its basic points (three / two constraints with independent normals active) is rejected by the
+conditioning test `|det| < rawArea·tol` of `vertex` (`tol` = the literal `1e-8`; the hypothesis says the
+polytope has no vertex whose normals are parallel to within `1e-8`).  Proof: ray shooting inside the active
+planes until `d` independent constraints are active (a basic feasible point that dominates the given point
+on the chosen axis), Cramer's rule, completeness of the index enumeration.
+Not modelled: `addConvexFace`, `Repair(epsilon)` and the removal of degenerate triangles (they move a
+vertex by at most `spatialEpsilon`); 2-D systems have normals with a zero third slot. -/
+theorem polytope_box_encloses (sq : K → K) (hsq : SqrtOK sq) (tol : K) (htol : 0 ≤ tol) (cs : List (Pt K × K))
+    (R : K) (p : Pt K) (hp : polyContains cs p = true) :
+    ((∀ j q, polyContains cs q = true → q j ≤ R ∧ -R ≤ q j) →
+      (∀ a ∈ cs, ∀ b ∈ cs, ∀ c ∈ cs, det3 a.1 b.1 c.1 ≠ 0 →
+        ¬ sabs (det3 a.1 b.1 c.1) < pnorm sq a.1 * pnorm sq b.1 * pnorm sq c.1 * tol) →
+      InBox true (vertsBox (meshVerts3 sq tol cs)) p) ∧
+    ((∀ l ∈ cs, l.1.z = 0) → (∀ q, polyContains cs q = true → (q 0 ≤ R ∧ -R ≤ q 0) ∧ (q 1 ≤ R ∧ -R ≤ q 1)) →
+      (∀ a ∈ cs, ∀ b ∈ cs, det2 a.1 b.1 ≠ 0 → ¬ sabs (det2 a.1 b.1) < pnorm sq a.1 * pnorm sq b.1 * tol) →
+      InBox false (vertsBox (meshVerts2 sq tol cs)) p) := by
+  have hpf := (polyContains_iff cs p).mp hp
+  refine ⟨fun hR hcond => ?_, fun hz hR hcond => ?_⟩
+  · exact verts_box_encloses3 sq hsq tol htol cs R
+      (fun j q hq => hR j q ((polyContains_iff cs q).mpr hq)) hcond p hpf
+  · exact verts_box_encloses2 sq hsq tol htol cs hz R
+      (fun q hq => (hR q ((polyContains_iff cs q).mpr hq)).1)
+      (fun q hq => (hR q ((polyContains_iff cs q).mpr hq)).2) hcond p hpf
+
+/-- **`wrapper_does_not_cut_polytope_mesh`.**  `ConvexPolytope.Solid()` with the box of the model of `Mesh()`,
+for constraints with arbitrary positive factors (3-D): under the hypotheses of `polytope_box_encloses` for
+the *unscaled* system, `Contains` of the solid of the *scaled* system is exactly the half-space test of the
+unscaled one — the box cuts nothing, whatever the lengths of the normals.  (`mesh_vertices_scale_invariant`
++ `polytope_box_encloses` + `wrapper_does_not_cut_polytope`.) -/
+theorem wrapper_does_not_cut_polytope_mesh (sq : K → K) (hsq : SqrtOK sq) (eps tol : K) (htol : 0 ≤ tol)
+    (l : List (SCon K)) (hs : ∀ c ∈ l, 0 < c.s) (R : K)
+    (hR : ∀ j q, polyContains (unscaledCs l) q = true → q j ≤ R ∧ -R ≤ q j)
+    (hcond : ∀ a ∈ unscaledCs l, ∀ b ∈ unscaledCs l, ∀ c ∈ unscaledCs l, det3 a.1 b.1 c.1 ≠ 0 →
+      ¬ sabs (det3 a.1 b.1 c.1) < pnorm sq a.1 * pnorm sq b.1 * pnorm sq c.1 * tol) (p : Pt K) :
+    (SolidExpr.polytope true (vertsBox (meshVerts3 sq tol (scaledCs l))) (scaledCs l)).contains sq eps p =
+      polyContains (unscaledCs l) p := by
+  rw [(mesh_vertices_scale_invariant sq hsq tol l hs).1]
+  exact wrapper_does_not_cut_polytope sq eps true _ l hs
+    (fun q hq => (polytope_box_encloses sq hsq tol htol (unscaledCs l) R q hq).1 hR hcond) p
+
+/-- the 2-D twin of `wrapper_does_not_cut_polytope_mesh` (`model2d.ConvexPolytope.Solid()`). -/
+theorem wrapper_does_not_cut_polytope_mesh2 (sq : K → K) (hsq : SqrtOK sq) (eps tol : K) (htol : 0 ≤ tol)
+    (l : List (SCon K)) (hs : ∀ c ∈ l, 0 < c.s) (hz : ∀ c ∈ unscaledCs l, c.1.z = 0) (R : K)
+    (hR : ∀ q, polyContains (unscaledCs l) q = true → (q 0 ≤ R ∧ -R ≤ q 0) ∧ (q 1 ≤ R ∧ -R ≤ q 1))
+    (hcond : ∀ a ∈ unscaledCs l, ∀ b ∈ unscaledCs l, det2 a.1 b.1 ≠ 0 →
+      ¬ sabs (det2 a.1 b.1) < pnorm sq a.1 * pnorm sq b.1 * tol) (p : Pt K) :
+    (SolidExpr.polytope false (vertsBox (meshVerts2 sq tol (scaledCs l))) (scaledCs l)).contains sq eps p =
+      polyContains (unscaledCs l) p := by
+  rw [(mesh_vertices_scale_invariant sq hsq tol l hs).2.1]
+  exact wrapper_does_not_cut_polytope sq eps false _ l hs
+    (fun q hq => (polytope_box_encloses sq hsq tol htol (unscaledCs l) R q hq).2 hz hR hcond) p
+
+/-- non-vacuity of `polytope_box_encloses` (2-D, `ℝ`, `Real.sqrt`, `tol = 0`): the unit square. -/
+example (p : Pt ℝ)
+    (hp : polyContains [(mk3 1 0 0, (1 : ℝ)), (mk3 (-1) 0 0, 0), (mk3 0 1 0, 1), (mk3 0 (-1) 0, 0)] p = true) :
+    InBox false (vertsBox (meshVerts2 Real.sqrt 0
+      [(mk3 1 0 0, (1 : ℝ)), (mk3 (-1) 0 0, 0), (mk3 0 1 0, 1), (mk3 0 (-1) 0, 0)])) p := by
+  refine (polytope_box_encloses Real.sqrt (fun x hx => ⟨Real.sqrt_nonneg x, Real.mul_self_sqrt hx⟩) 0 (le_refl _)
+    _ 1 p hp).2 ?_ ?_ ?_
+  · intro l hl
+    simp only [List.mem_cons, List.not_mem_nil, or_false] at hl
+    rcases hl with rfl | rfl | rfl | rfl <;> rfl
+  · intro q hq
+    have h := (polyContains_iff _ q).mp hq
+    have h1 := h _ (List.mem_cons_self ..)
+    have h2 := h _ (List.mem_cons_of_mem _ (List.mem_cons_self ..))
+    have h3 := h _ (List.mem_cons_of_mem _ (List.mem_cons_of_mem _ (List.mem_cons_self ..)))
+    have h4 := h _ (List.mem_cons_of_mem _ (List.mem_cons_of_mem _ (List.mem_cons_of_mem _ (List.mem_cons_self ..))))
+    simp only [pdot_xyz, mk3_x, mk3_y, mk3_z] at h1 h2 h3 h4
+    simp only [get_x, get_y]
+    constructor <;> constructor <;> linarith
+  · intro a _ b _ _
+    rw [mul_zero, sabs_eq]
+    exact not_lt.mpr (abs_nonneg _)
+
+/-- non-vacuity: the unit square with normals of length `2⁻⁴⁰`, `2⁴⁰`, `1`, `1/4`: the factors are
+positive, the scaled system accepts the centre, and (with the exact square root of the squares that
+occur) the model of `Mesh()` enumerates the four corners, as for unit normals. -/
+example : (∀ c ∈ ([⟨1 / 1099511627776, mk3 1 0 0, 1⟩, ⟨1099511627776, mk3 (-1) 0 0, 0⟩, ⟨1, mk3 0 1 0, 1⟩,
+        ⟨1 / 4, mk3 0 (-1) 0, 0⟩] : List (SCon ℚ)), 0 < c.s) ∧
+    polyContains (scaledCs ([⟨1 / 1099511627776, mk3 1 0 0, 1⟩, ⟨1099511627776, mk3 (-1) 0 0, 0⟩,
+        ⟨1, mk3 0 1 0, 1⟩, ⟨1 / 4, mk3 0 (-1) 0, 0⟩] : List (SCon ℚ))) (mk3 (1 / 2) (1 / 2) 0) = true ∧
+    (meshVerts2 (α := ℚ) (fun x => if x = 1 then 1 else if x = 1 / 16 then 1 / 4 else if x = 1208925819614629174706176
+        then 1099511627776 else 1 / 1099511627776) (1 / 100000000)
+      (scaledCs [⟨1 / 1099511627776, mk3 1 0 0, 1⟩, ⟨1099511627776, mk3 (-1) 0 0, 0⟩, ⟨1, mk3 0 1 0, 1⟩,
+        ⟨1 / 4, mk3 0 (-1) 0, 0⟩])).map (fun v => (v.x, v.y)) = [(1, 1), (1, 0), (0, 1), (0, 0)] := by
+  refine ⟨?_, by decide +kernel, by decide +kernel⟩
+  intro c hc
+  simp only [List.mem_cons, List.not_mem_nil, or_false] at hc
+  rcases hc with rfl | rfl | rfl | rfl <;> norm_num
 
 /-! ## Primitive leaves with closed forms -/
 
